@@ -36,10 +36,10 @@ Proof.
     - pose proof (Z.rem_bound_pos p r ltac:(lia) ltac:(lia)).
       pose proof (Z.rem_bound_pos q r Q0 ltac:(lia)). lia.
     - destruct (Z.le_gt_cases p 0) as [P0|P0].
-      + pose proof (Z.rem_bound_neg p r P0 ltac:(lia)).
-        pose proof (Z.rem_bound_neg q r ltac:(lia) ltac:(lia)). lia.
+      + pose proof (Z.rem_bound_pos_neg p r ltac:(lia) P0).
+        pose proof (Z.rem_bound_pos_neg q r ltac:(lia) ltac:(lia)). lia.
       + pose proof (Z.rem_bound_pos p r ltac:(lia) ltac:(lia)).
-        pose proof (Z.rem_bound_neg q r ltac:(lia) ltac:(lia)). lia. }
+        pose proof (Z.rem_bound_pos_neg q r ltac:(lia) ltac:(lia)). lia. }
   apply Z.mul_lt_mono_pos_l in K; lia.
 Qed.
 
@@ -221,32 +221,31 @@ Definition accounted (T : Z) (k : nat) (props : list N) (v v' : validator) : Pro
   v_addr v' = v_addr v /\ v_power v' = v_power v /\
   v_prio v' = v_prio v + Z.of_nat k * v_power v - T * count (v_addr v) props.
 
+Lemma round_accounted_gen T a l :
+  Forall2 (accounted T 1 [a]) l (pay T a (advance l)).
+Proof.
+  unfold pay, advance. rewrite map_map.
+  induction l as [|h t IH]; cbn [map]; constructor; [|exact IH].
+  unfold accounted, count. cbn [count_occ set_prio v_addr].
+  destruct (N.eqb_spec (v_addr h) a) as [E|E]; cbn [v_addr v_power v_prio set_prio];
+    destruct (N.eq_dec a (v_addr h)) as [E'|E']; try congruence;
+    cbn [count_occ]; repeat split; lia.
+Qed.
+
 Lemma spec_round_accounted l l' a :
   spec_round l l' a -> Forall2 (accounted (total_power l) 1 [a]) l l'.
-Proof.
-  intros (p & _ & -> & ->). unfold pay, advance. rewrite map_map.
-  induction l as [|h t IH]; cbn [map]; constructor.
-  - unfold accounted, count. cbn [set_prio v_addr v_power v_prio count_occ].
-    destruct (N.eqb_spec (v_addr h) (v_addr p)) as [E|E]; cbn [v_addr v_power v_prio set_prio].
-    + destruct (N.eq_dec (v_addr p) (v_addr h)); [|congruence]. repeat split; lia.
-    + destruct (N.eq_dec (v_addr p) (v_addr h)); [congruence|]. repeat split; lia.
-  - (* the total used is that of the whole list: generalise *)
-    clear IH.
-    generalize (total_power (h :: t)). intros T. induction t as [|h' t' IH']; cbn [map]; constructor.
-    + unfold accounted, count. cbn [count_occ].
-      destruct (N.eqb_spec (v_addr h') (v_addr p)) as [E|E]; cbn [v_addr v_power v_prio set_prio].
-      * destruct (N.eq_dec (v_addr p) (v_addr h')); [|congruence]. repeat split; lia.
-      * destruct (N.eq_dec (v_addr p) (v_addr h')); [congruence|]. repeat split; lia.
-    + exact IH'.
-Qed.
+Proof. intros (p & _ & -> & ->). apply round_accounted_gen. Qed.
 
 Lemma Forall2_accounted_trans T k1 k2 p1 p2 l l1 l2 :
   Forall2 (accounted T k1 p1) l l1 -> Forall2 (accounted T k2 p2) l1 l2 ->
   Forall2 (accounted T (k1 + k2) (p1 ++ p2)) l l2.
 Proof.
   intros H. revert l2. induction H as [|v v1 t t1 Hv Ht IH]; intros l2 H2; inversion H2; subst; constructor.
-  - destruct Hv as (A1 & P1 & Q1). match goal with H : accounted _ _ _ v1 _ |- _ => destruct H as (A2 & P2 & Q2) end.
-    unfold accounted, count in *. rewrite count_occ_app, A2, A1, P2, P1, Q2, Q1, A1, P1. repeat split. lia.
+  - destruct Hv as (A1 & P1 & Q1).
+    match goal with H : accounted _ _ _ v1 _ |- _ => destruct H as (A2 & P2 & Q2) end.
+    unfold accounted, count in *. rewrite count_occ_app, !Nat2Z.inj_add.
+    split; [congruence|]. split; [congruence|].
+    rewrite Q2, A1, P1, Q1. lia.
   - apply IH. assumption.
 Qed.
 
@@ -254,8 +253,9 @@ Theorem spec_rounds_accounted k l l' props :
   spec_rounds k l l' props -> Forall2 (accounted (total_power l) k props) l l' /\ length props = k.
 Proof.
   intros R. induction R as [l|k l l1 l2 a props R1 R [IH IHl]].
-  - split; [|reflexivity]. induction l; constructor; [|assumption].
-    unfold accounted, count. cbn. repeat split; lia.
+  - split; [|reflexivity]. generalize (total_power l). intros T.
+    induction l as [|h t IHt]; constructor; [|exact IHt].
+    unfold accounted, count. cbn [count_occ]. repeat split; lia.
   - split; [|cbn; now rewrite IHl].
     destruct (spec_round_fields _ _ _ R1) as (_ & P & _).
     rewrite (total_power_map _ _ P) in IH.
@@ -374,9 +374,9 @@ Proof.
     - eapply spec_round_lower; eassumption. }
   intros v Hv. split; [now apply LB'|].
   rewrite <- (spec_rounds_sum _ _ _ _ N R).
-  assert (length l' = length l) as ->.
+  assert (length l' = length l) as EL.
   { clear - R. induction R as [|k l l1 l2 a props R1 R IH]; [reflexivity|].
     destruct (spec_round_fields _ _ _ R1) as (A & _ & _). rewrite IH.
     rewrite <- (map_length v_addr l1), A. apply map_length. }
-  now apply upper_from_sum.
+  rewrite <- EL. now apply upper_from_sum.
 Qed.
